@@ -89,10 +89,35 @@ def mkVarDef (e : Entry) : VarDef := ⟨⟨e.name, Loc.none⟩, Loc.none, some (
 
 def NState.synth (st : NState) : List (String × JVal) := st.entries.map (fun e => (e.name, lti e.lit))
 
+/-! ### duplicate field names inside an object literal (`hasDuplicateFieldNames`) -/
+
+def hasDupName : List String → Bool
+  | [] => false
+  | n :: ns => ns.contains n || hasDupName ns
+
+def fieldNames : List ObjField → List String
+  | [] => []
+  | (.mk n _ _) :: fs => n.value :: fieldNames fs
+
+mutual
+/-- some object literal inside the value names a field twice -/
+def dupFields : Value → Bool
+  | .list vs _ => dupFieldsL vs
+  | .obj fs _ => hasDupName (fieldNames fs) || dupFieldsF fs
+  | _ => false
+def dupFieldsL : List Value → Bool
+  | [] => false
+  | v :: vs => dupFields v || dupFieldsL vs
+def dupFieldsF : List ObjField → Bool
+  | [] => false
+  | (.mk _ v _) :: fs => dupFields v || dupFieldsF fs
+end
+
 /-- `tryExtract`: not extracted when the value is or contains a variable, when it is not a valid literal of the
 expected type (`isValidLiteralValue`), or when `valueFromAST` yields nil; otherwise replaced by the synthetic variable standing for (type, printed literal). -/
 def tryExtract (s : Schema) (st : NState) (value : Value) (expected : GType) : Value × NState :=
   if hasVars value then (value, st)
+  else if dupFields value then (value, st)                                    -- D-06m: UniqueInputFieldNames must see it
   else if !isValidLiteralValue s expected (some value) then (value, st)      -- 4210b3d: only valid literals are extracted
   else if (valueFromAST s expected (some value) []).isNull then (value, st)
   else
@@ -126,32 +151,42 @@ def inlineParent (s : Schema) (parent : String) : Option TypeRef → String
   | some t => if s.isObject t.namedName then t.namedName else parent
   | none => parent
 
+/-- response key of a field: alias, else name -/
+def respKey (alias : Option Name) (name : Name) : String := (alias.map (·.value)).getD name.value
+
+/-- the argument definitions `normalizeField` extracts against: none when the field's response key also occurs on a
+field inside a fragment definition (`keep` = `fragKeys doc`): fragment definitions are not rewritten, and
+OverlappingFieldsCanBeMerged compares the arguments of fields with one response key AS WRITTEN (D-06n) -/
+def argDefsFor (keep : List String) (key : String) (fd : FieldDefS) : List ArgDef :=
+  if keep.contains key then [] else fd.args
+
 mutual
 /-- `normalizeSelectionSet` / `normalizeField` on the clone -/
-def normSel (s : Schema) (parent : String) : Selection → NState → Selection × NState
+def normSel (s : Schema) (keep : List String) (parent : String) : Selection → NState → Selection × NState
   | .field alias name args dirs sel loc, st =>
     match fieldDefN s parent name.value with
     | none => (.field alias name args dirs sel loc, st)
     | some fd =>
       if s.isObject fd.type.namedName then
-        (.field alias name (normArgs s fd.args args st).1 dirs
-          (normOpt s fd.type.namedName sel (normArgs s fd.args args st).2).1 loc,
-         (normOpt s fd.type.namedName sel (normArgs s fd.args args st).2).2)
-      else (.field alias name (normArgs s fd.args args st).1 dirs sel loc, (normArgs s fd.args args st).2)
+        (.field alias name (normArgs s (argDefsFor keep (respKey alias name) fd) args st).1 dirs
+          (normOpt s keep fd.type.namedName sel (normArgs s (argDefsFor keep (respKey alias name) fd) args st).2).1 loc,
+         (normOpt s keep fd.type.namedName sel (normArgs s (argDefsFor keep (respKey alias name) fd) args st).2).2)
+      else (.field alias name (normArgs s (argDefsFor keep (respKey alias name) fd) args st).1 dirs sel loc,
+        (normArgs s (argDefsFor keep (respKey alias name) fd) args st).2)
   | .inline tc dirs ss loc, st =>
-    (.inline tc dirs (normSet s (inlineParent s parent tc) ss st).1 loc, (normSet s (inlineParent s parent tc) ss st).2)
+    (.inline tc dirs (normSet s keep (inlineParent s parent tc) ss st).1 loc, (normSet s keep (inlineParent s parent tc) ss st).2)
   | .spread n d l, st => (.spread n d l, st)
 /-- `if f.SelectionSet != nil { … }` -/
-def normOpt (s : Schema) (parent : String) : Option SelectionSet → NState → Option SelectionSet × NState
+def normOpt (s : Schema) (keep : List String) (parent : String) : Option SelectionSet → NState → Option SelectionSet × NState
   | none, st => (none, st)
-  | some ss, st => (some (normSet s parent ss st).1, (normSet s parent ss st).2)
-def normSet (s : Schema) (parent : String) : SelectionSet → NState → SelectionSet × NState
-  | .mk sels loc, st => (.mk (normList s parent sels st).1 loc, (normList s parent sels st).2)
-def normList (s : Schema) (parent : String) : List Selection → NState → List Selection × NState
+  | some ss, st => (some (normSet s keep parent ss st).1, (normSet s keep parent ss st).2)
+def normSet (s : Schema) (keep : List String) (parent : String) : SelectionSet → NState → SelectionSet × NState
+  | .mk sels loc, st => (.mk (normList s keep parent sels st).1 loc, (normList s keep parent sels st).2)
+def normList (s : Schema) (keep : List String) (parent : String) : List Selection → NState → List Selection × NState
   | [], st => ([], st)
   | x :: xs, st =>
-    ((normSel s parent x st).1 :: (normList s parent xs (normSel s parent x st).2).1,
-     (normList s parent xs (normSel s parent x st).2).2)
+    ((normSel s keep parent x st).1 :: (normList s keep parent xs (normSel s keep parent x st).2).1,
+     (normList s keep parent xs (normSel s keep parent x st).2).2)
 end
 
 def userVarNames (vars : List VarDef) : List String := vars.map (·.var.value)
@@ -201,11 +236,35 @@ def docVarNames (doc : Document) : List String := doc.defs.flatMap defVars
 /-- `taken`: the operation's own variable names and every variable name occurring in the document -/
 def initState (vars : List VarDef) (docNames : List String) : NState := ⟨0, userVarNames vars ++ docNames, []⟩
 
+/-! ### response keys of the fields inside fragment definitions (`collectResponseKeys`) -/
+
+mutual
+def selKeys : Selection → List String
+  | .field alias name _ _ sel _ => respKey alias name :: optKeys sel
+  | .inline _ _ ss _ => setKeys ss
+  | .spread _ _ _ => []
+def optKeys : Option SelectionSet → List String
+  | none => []
+  | some ss => setKeys ss
+def setKeys : SelectionSet → List String
+  | .mk sels _ => listKeys sels
+def listKeys : List Selection → List String
+  | [] => []
+  | x :: xs => selKeys x ++ listKeys xs
+end
+
+def defFragKeys : Definition → List String
+  | .fragment _ _ _ sel _ => setKeys sel
+  | _ => []
+
+def fragKeys (doc : Document) : List String := doc.defs.flatMap defFragKeys
+
 /-- the operation part of `normalizeDocument`: clone, walk from the root type, append the synthetic definitions -/
-def normalizeOperation (s : Schema) (root : String) (docNames : List String) : Definition → Definition × List (String × JVal)
+def normalizeOperation (s : Schema) (keep : List String) (root : String) (docNames : List String) :
+    Definition → Definition × List (String × JVal)
   | .operation op name vars dirs sel loc =>
-    (.operation op name (vars ++ (normSet s root sel (initState vars docNames)).2.entries.map mkVarDef) dirs
-       (normSet s root sel (initState vars docNames)).1 loc, (normSet s root sel (initState vars docNames)).2.synth)
+    (.operation op name (vars ++ (normSet s keep root sel (initState vars docNames)).2.entries.map mkVarDef) dirs
+       (normSet s keep root sel (initState vars docNames)).1 loc, (normSet s keep root sel (initState vars docNames)).2.synth)
   | d => (d, [])
 
 inductive DocOut where
@@ -244,7 +303,7 @@ def normalizeDocument (s : Schema) (doc : Document) (opName : String) : DocOut :
       match s.rootFor (opTypeOf opDef) with
       | none => .rootError
       | some root =>
-        let r := normalizeOperation s root (docVarNames doc) opDef
+        let r := normalizeOperation s (fragKeys doc) root (docVarNames doc) opDef
         if r.2.isEmpty then .ok doc [] else .ok { doc with defs := replaceAt doc.defs i r.1 } r.2
 
 /-- the cache identifier of a normalised document after the repair `notes/fixes/D-06k.diff`: `"doc:"` + the bytes of its
